@@ -133,6 +133,24 @@ def decoder_ok_errors(fn, data: bytes):
         return [f"{fn.__name__} raised {type(e).__name__}: {e} ({where})"]
     errs = []
     seen = set()
+    # DecoderOK (a): the nodes are freshly allocated by THIS call - a second call on equal bytes must not hand out the same objects
+    try:
+        again = with_timeout(10, fn, bytes(bytearray(data)))
+        first_ids = set()
+        stack = list(hits)
+        while stack:
+            x = stack.pop()
+            first_ids.add(id(x))
+            stack.extend(x.children)
+        stack = list(again)
+        while stack:
+            x = stack.pop()
+            if id(x) in first_ids:
+                errs.append(f"a second call on equal bytes returns a node object ({x.type!r}) that an earlier call already returned")
+                break
+            stack.extend(x.children)
+    except Exception:  # noqa: BLE001
+        pass
     for h in hits:
         if id(h) in seen:
             errs.append("the same node object is returned twice")
@@ -253,6 +271,8 @@ def corpus(tier, seed):
     ]
     edge += [b"MZ" + b"\x00" * k for k in range(0x38, 0x48)] + [b"xx MZ" + b"A" * k for k in range(0x38, 0x48)]
     edge += [b"xx" + mkpe(0x200, 0x200, 0x400), b"xx" + mkpe(0x200, 0x10000, 0x400), mkpe(0x200, 0x300, 0x400) + b"tail", mkpe(0x3F0, 0x20, 0x400)]
+    edge += [b"FromBase64String('QUJD'); FromBase64String('QUJDREVGR0hJSktM') -bxor 77", b"FromHexString('41424344454647484950'); FromHexString('4142434445464748495051525354555657585960') -bxor 9",
+             b"http://0x7f.1", b"http://0x7f.1/", b"see http://0177.1 x", b"      StrReverse(\"abc\") StrReverse('x')", b"aaaaaaaaaaaaaaaaaaaaaaaa reverse('abc')"]
     edge += [b'x = "ab" & "cd"', b"chr(65)", b"y=atob('QUJDRA==')", b'"a".replace("a","b")']
     out += [("edge", e) for e in edge]
     for _ in range(200 if tier == "quick" else 5000):
